@@ -86,6 +86,9 @@ def compare(tA, tB, nodes, dag, kinds, pid_map=None, float_sum_nodes=None,
                 status[n] = "DIFF"
                 out["violations"].append(dict(node=n, kind="partition", detail=_first_partition_diff(pa, a, b)))
             continue
+        if n.startswith("p_id_") and pid_map is not None:
+            # a computed pointer column: compare through the id map
+            a = np.array([pid_map.get(int(x), int(x)) if x >= 0 else int(x) for x in a])
         if check_dtype and a.dtype != b.dtype:
             out["violations"].append(dict(node=n, kind="dtype", detail=f"{a.dtype} vs {b.dtype}"))
         eq = _eq(a, b)
